@@ -396,6 +396,81 @@ def classify_attr(project: Project, cls, attr: str) -> Optional[dict]:
 
 
 # ------------------------------------------------------------------------------------------------------------ for every check
+def class_level_memos(project: Project, classes=None) -> List[dict]:
+    """Pattern D — a dictionary bound in a CLASS BODY (`_table = {}`) that methods fill through `self._table[K] = V` and no
+    method re-binds per instance: one object shared by every instance.  It is a correct memo only when V is a function of the
+    components of K; a V that reads `self.<attr>` (the state of one instance) or a parameter that is not part of K makes what
+    an instance computes depend on which instances filled the table before.  One record per such table:
+    dict(fi, node, verdict 'ok' | 'refuted' | None, why)."""
+    out = []
+    for cq, c in sorted(project.classes.items()):
+        if classes is not None and cq not in classes:
+            continue
+        tables = {}
+        for st in c.node.body:
+            if isinstance(st, ast.Assign) and len(st.targets) == 1 and isinstance(st.targets[0], ast.Name):
+                v = st.value
+                if (isinstance(v, ast.Dict) and not v.keys) or (isinstance(v, ast.Call) and isinstance(v.func, ast.Name)
+                                                               and v.func.id in ("dict", "OrderedDict", "defaultdict") and not v.args):
+                    tables[st.targets[0].id] = st
+        if not tables:
+            continue
+        methods = [m for m in c.methods.values() if isinstance(m.node, (ast.FunctionDef, ast.AsyncFunctionDef))]
+        for tname, tnode in sorted(tables.items()):
+            if any(isinstance(t, ast.Attribute) and t.attr == tname and isinstance(t.ctx, ast.Store)
+                   for m in methods for n in ast.walk(m.node) if isinstance(n, (ast.Assign, ast.AugAssign, ast.AnnAssign))
+                   for t in (n.targets if isinstance(n, ast.Assign) else [n.target])):
+                continue   # re-bound per instance somewhere: not (only) the class's object
+            verdicts = []
+            for m in methods:
+                first = m.params[0] if m.params else None
+                for n in ast.walk(m.node):
+                    if not isinstance(n, ast.Assign):
+                        continue
+                    for t in n.targets:
+                        if not (isinstance(t, ast.Subscript) and isinstance(t.value, ast.Attribute) and t.value.attr == tname
+                                and isinstance(t.value.value, ast.Name) and t.value.value.id in (first, c.name, "cls")):
+                            continue
+                        key = t.slice
+                        if isinstance(key, ast.Name):
+                            defs = [a.value for a in ast.walk(m.node) if isinstance(a, ast.Assign) and any(
+                                isinstance(x, ast.Name) and x.id == key.id for x in a.targets)]
+                            if len(defs) == 1:
+                                key = defs[0]
+                        comps = [ast.dump(k_) for k_ in (key.elts if isinstance(key, ast.Tuple) else [key])]
+                        comp_names = {x.id for k_ in (key.elts if isinstance(key, ast.Tuple) else [key]) for x in ast.walk(k_)
+                                      if isinstance(x, ast.Name)}
+                        left = []
+
+                        def rec(e):
+                            if isinstance(e, ast.expr) and ast.dump(e) in comps:
+                                return
+                            if isinstance(e, ast.Attribute) and isinstance(e.value, ast.Name) and e.value.id == first:
+                                left.append(f"{first}.{e.attr}")
+                                return
+                            if isinstance(e, ast.Name) and isinstance(e.ctx, ast.Load) and e.id in m.params and e.id != first \
+                                    and e.id not in comp_names:
+                                left.append(e.id)
+                            for ch in ast.iter_child_nodes(e):
+                                rec(ch)
+                        rec(n.value)
+                        verdicts.append((m, n, sorted(set(left)), ast.unparse(key)))
+            if not verdicts:
+                continue
+            bad = [v for v in verdicts if v[2]]
+            if bad:
+                m, n, left, ktxt = bad[0]
+                out.append(dict(fi=m, node=n, verdict="refuted", table=tname,
+                                why=f"`{c.name}.{tname}` is bound in the class body: one dictionary shared by every instance. It is filled "
+                                    f"under the key `{ktxt}` with a value that depends on {', '.join('`' + x + '`' for x in left)}, which the key "
+                                    f"does not contain: an instance reads entries another instance (another `{left[0].split('.')[-1]}`) stored"))
+            else:
+                m, n, _, ktxt = verdicts[0]
+                out.append(dict(fi=m, node=n, verdict="ok", table=tname,
+                                why=f"`{c.name}.{tname}` is a class-level memo keyed by `{ktxt}`; the stored value is a function of the key"))
+    return out
+
+
 def check(project: Project, rep, rule: str = "ST-CACHE"):
     """module-level caches written by the code a check analysed (and what it calls): a cache that is keyed by too little
     makes the analysed function's result depend on earlier calls — whatever that function computes.  Only the two memo
@@ -434,4 +509,15 @@ def check(project: Project, rep, rule: str = "ST-CACHE"):
                             construct=f"{r['fi'].qualname}: cache {g}")
             elif r["verdict"] == "ok":
                 rep.discharged(rule, r["fi"], r["node"], r["why"], nontrivial=False)
+    # class-level tables of the classes whose methods the analysed code reaches
+    mods = {fi.module.name for fi in fns}
+    reached = {fi.cls.qualname for fi in fns if fi.cls is not None} | {
+        cq for cq, c_ in project.classes.items() if cq.rsplit(".", 1)[0] in mods}   # (a class may be reached through a factory value)
+    for r in class_level_memos(project, reached):
+        n += 1
+        if r["verdict"] == "refuted":
+            rep.refuted(rule, r["fi"], r["node"], r["why"] + " — what the analysed function returns depends on the calls made before",
+                        construct=f"{r['fi'].qualname}: class-level cache {r['table']}")
+        else:
+            rep.discharged(rule, r["fi"], r["node"], r["why"], nontrivial=False)
     return n
